@@ -835,7 +835,7 @@ func c12Builders(c *Ctx) {
 			continue
 		}
 		rn := namedOfPtr(fn.Signature.Recv().Type())
-		if rn == nil || rn.Obj().Name() != "config" {
+		if rn == nil || typeCanonName(rn.Obj()) != "config" {
 			continue
 		}
 		n++
